@@ -97,20 +97,31 @@ def reader_behaviours(num, depth, seed, workers=8):
     return cases
 
 
+def rdf_record(k, damage, rnd):
+    """record k of an RDF file: a molecule record or a one-molecule reaction, with the same metadata"""
+    block = molblock(k, damage).split('>  <ID>')[0].rstrip('\n') + '\n'
+    if rnd.random() < .5:
+        return f'$MFMT\n{block}$DTYPE ID\n$DATUM rec{k}\n'
+    return f'$RFMT\n$RXN\nrec{k}\n\n\n  1  0\n$MOL\n{block}$DTYPE ID\n$DATUM rec{k}\n'
+
+
 def replay_reader(case):
-    from chython.files import SDFRead
+    from chython.files import SDFRead, RDFRead
     rnd = random.Random(case['rs'])
     d = tempfile.mkdtemp(prefix='verif-rr-')
-    path = os.path.join(d, 'f.sdf')
+    fmt = case.get('fmt', 'sdf')
+    path = os.path.join(d, 'f.' + fmt)
     with open(path, 'w') as f:
+        if fmt == 'rdf':
+            f.write('$RDFILE 1\n$DATM    01/01/26 00:00\n')
         for k, r in enumerate(case['file'], 1):
             dmg = None
             if not r['ok']:
                 dmg = 'noend' if not r['mend'] else rnd.choice(['counts', 'atomline', 'element', 'bondref'])
-            f.write(molblock(k, dmg))
+            f.write(molblock(k, dmg) if fmt == 'sdf' else rdf_record(k, dmg, rnd))
     out = []
     try:
-        rd = SDFRead(path, indexable=True)
+        rd = (SDFRead if fmt == 'sdf' else RDFRead)(path, indexable=True)
         try:
             os.remove(rd._cache_path)     # the index cache lives in the system temp dir, keyed by file name
         except Exception:
@@ -343,6 +354,9 @@ def run(ck):
         beh = reader_behaviours(600 if ck.quick else 6000, 10, ck.seed + 1)
     else:
         beh = []
+    # the same behaviours on RDF files (molecule and reaction records); an RDF record keeps its metadata whatever happens to the
+    # structure block, so only files whose damaged records keep their "M  END" apply
+    beh = beh + [dict(b, fmt='rdf', key='rdf:' + b['key']) for b in beh if all(r['mend'] for r in b['file'])]
     beh = ck.select('reader-behaviours', beh) if not ck.replay else ck.select('reader-behaviours', [])
     if beh:
         recs = vlib.pmap('checks.c11', 'replay_reader', beh)
